@@ -517,10 +517,11 @@ def run(ctx):
     ctx.guarded('C17-D5', 'readers@derivation', d5_derivation, ctx)
     ctx.guarded('C17-D1', 'sfcf@pairing', d6_sfcf_pairing, ctx)
     ctx.guarded('C17-D5', 'openQCD@relabelling', d7_relabelling, ctx)
-    from .. import unusedparams
-    ctx.rule('C17-D6', 'every accepted option is read (no silently ignored parameter)')
+    from .. import unusedparams, leakedloop
+    ctx.rule('C17-D6', 'every accepted option is read (no silently ignored parameter); no loop variable read after its loop')
     for mn_ in ('input.openQCD', 'input.sfcf', 'input.hadrons', 'input.misc', 'input.utils'):
         ctx.guarded('C17-D6', mn_ + '@parameters', unusedparams.check, ctx, 'C17-D6', ctx.repo.mod(mn_))
+        ctx.guarded('C17-D6', mn_ + '@loop-variables', leakedloop.check, ctx, 'C17-D6', ctx.repo.mod(mn_))
 
 
 
